@@ -129,6 +129,11 @@ STRENGTHENED = [
     ("seeded/C08-l", "names handed down to a nested operator lambda come from the table the transformer was created with", "C08: the parameter of a called lambda is used one lambda further down (inside the lambda of a collection operator in its body); called lambdas drawn more often"),
     ("seeded/C09-l", "a called lambda followed in a throw-away type scope (its result typed Any)", "C09: receivers that are the RESULT of a lambda called where it is written; receivers reached through a method annotated Optional[Jet] (exposed the genuine defect D80)"),
     ("seeded/C10-l", "a conditional with two equal non-numeric branches loses its type", "C10: conditionals (also behind a dict lookup / tuple index) as branches of conditionals"),
+    ("seeded/C11-l", "call-back metadata of a nested operator put on the CALLER's stream object in place", "C11: in a third of the cases the event class has no class-level callback (which otherwise replaces the type follower's working stream first), so callbacks in nested lambdas are the only ones that touch it"),
+    ("seeded/C14-l", "the constant-index test looks at the slice before substitution", "typed generator (C14, C02): the position reaches the subscript through a defaulted / keyword parameter of a called lambda"),
+    ("seeded/C16-l", "lookup_query_metadata also answers from MetaData blocks on the path", "C16: MetaData blocks that use the key names of the query metadata"),
+    ("seeded/C18-l", "stack_frame without try/finally: frames of a refused query stay on the argument stack", "C02 / C14 / C18 (shared semantic check): after an index error on the re-used transformer a probe query with a free variable spelled like each lambda parameter of the refused query must keep that variable; refusals from inside applied lambdas added to the instance's history"),
+    ("seeded/C19-l", "ast.arguments treated as a leaf", "C19: a shortcut as default value of a lambda parameter (positional / keyword-only)"),
     ("seeded/C08-c", "generic subclass with more type parameters than its base uses", "C08 skeleton: Tag(Box[K], Generic[K,V]), Tag2(Box[V], ...), Swap(Pair[U,T], ...), HalfPair(Pair[T,int]), It2(Iterable[V], ...), TagInts(Tag[int,V]); class names taken from typing. This extension also exposed the genuine defects D29 and D30"),
 ]
 
